@@ -509,7 +509,7 @@ def canon_py(t, v):
         for m in t['root'] + (t['ext'] or []):
             if m['name'] in v:
                 d[m['name']] = canon_py(m['t'], v[m['name']])
-            elif m['default'] is not None and m in t['root']:
+            elif m['default'] is not None:      # absent DEFAULT component == its default (root and additions)
                 d[m['name']] = canon_py(m['t'], m['default'])
         return d
     if k == 'choice':
